@@ -279,6 +279,13 @@ def conditions(tier):
                 conds.append(Cond(name, fn, timeout=1200, group="session",
                                   bounds=f"one real session (hooks in process) on a two-file project from every invariant-satisfying storage state; file b {'takes part' if bp else 'does not take part'}; "
                                          f"{'no new outsourcing' if new_item < 0 else 'item %d outsourced into an empty snapshot' % new_item}; create/trim approved by flag or not, review mode with all-yes / all-no answers; hash-length {hl}{'; item 2 absent (quick)' if q else ''}"))
+    if q:
+        # the complete hash as reference (hash-length 64): one cheap cell in the quick tier, all cells in thorough
+        name = "session_hl64_new0_a"
+        body = "return session_step([p0, p1, p2], [n0, n1, n2], [ra0, ra1, ra2], [rb0, rb1, rb2], False, 0, [f0, f1, f2, f3], 64, review, answer)"
+        pre = [inv2, "not p1 and not n1 and not ra1 and not rb1 and not p2 and not n2 and not ra2 and not rb2 and not rb0", "not f1 and not f3", "review or not answer"]
+        conds.append(Cond(name, mkfn(name, PB + RB + FB + [("review", "bool"), ("answer", "bool")], body, GLB, pre=pre), timeout=1200, group="session",
+                          bounds="one real session, only item 0 in play, item 0 outsourced into an empty snapshot, references written with the complete hash (hash-length 64)"))
     tw = mkfn("api_twin", PB + [("j", "int")], "return api_step([p0, p1, p2], [n0, n1, n2], 2, j, 12)", GLB, pre=[INV, "0 <= j <= 2 and n1"], post="not _")
     conds.append(Cond("api_twin", tw, timeout=60, twin=True))
     return conds
